@@ -398,3 +398,31 @@ contract('loader.SchemaLoader.loadResource', params={'resource': 'Ref[loader.Res
          raises=[Raise('Exception+', then=[_UNCH, Clause('self._cache == old(self._cache)', carries='C19',
                                                          label='a-failed-load-is-not-remembered')],
                        label='schema-error-or-malformed-xml')])
+
+# character-data elements: endElement hands the stripped text to characters_<tag>; the attributes and
+# the position of the element were recorded by startElement / characters / endElement (not under contract)
+MODELS['schema.BaseParser'].fields.update({'_attrs': ATTRS, '_position': 'Opt[Tuple[int, Opt[int], Opt[str]]]'})
+MODELS['schema.BaseParser'].late_fields = tuple(MODELS['schema.BaseParser'].late_fields) + ('_attrs', '_position')
+KEYLIKE_TOP = "cast(self._stack[-1], 'info.BaseKeyInfo')"
+contract('schema.BaseParser.characters_default', params={'data': 'str'},
+         requires=[Clause("len(self._stack) > 0 and isa(self._stack[-1], 'info.BaseKeyInfo')",
+                          label='inside-a-key-or-multikey-element (nesting table, SAX dispatch: assumed)'),
+                   Clause('self._position is not None', label='the-element-has-a-position (endElement supplies that of the end tag when '
+                                                              'there was no character data: fix a8dc912)'),
+                   Clause('key_default_shape(%s)' % KEYLIKE_TOP, label='defaults-have-the-shape-of-the-kind-of-key')],
+         modifies=['%s._default' % KEYLIKE_TOP],
+         ensures=[Clause("not %s._finished and (%s.name == '+') == ('key' in self._attrs)" % (KEYLIKE_TOP, KEYLIKE_TOP), carries='C10',
+                         label='a-default-element-carries-a-key-attribute-exactly-for-a-wildcard-key')],
+         raises=[SCHEMA_ERROR])
+
+# ---- closing a <multikey> (C10) ------------------------------------------------------------------------------------------
+MKTOP = "cast(self._stack[-1], 'info.MultiKeyInfo')"
+contract('schema.BaseParser.end_multikey',
+         requires=[Clause("len(self._stack) >= 2 and isa(self._stack[-1], 'info.MultiKeyInfo') and isa(self._stack[-2], 'info.SectionType')",
+                          label='closing-a-multikey-element-inside-a-type (nesting table, SAX dispatch: assumed)'),
+                   Clause("invariant_of(cast(self._stack[-1], 'info.MultiKeyInfo'))", label='multikey-info-well-formed')],
+         modifies=['self._stack', '%s._default' % MKTOP, '%s._rawdefaults' % MKTOP, '%s._finished' % MKTOP],
+         ensures=[Clause('self._stack == old(self._stack)[:-1]', carries='C10', label='multikey-element-closed'),
+                  Clause("cast(old(self._stack)[-1], 'info.MultiKeyInfo')._finished", carries='C10', label='finished')],
+         raises=[SCHEMA_ERROR, Raise('ZConfig.DataConversionError', carries='C10',
+                                     label='default-key-refused-by-the-key-type (known finding KF-C10-default-key)')])
